@@ -50,6 +50,11 @@ def changes():
         name = "tmp5/" + d.split("/")[-2] + "-" + d.split("/")[-1]
         if os.path.exists(p) and not os.path.exists(os.path.join(VERIF, "seeded", "r5-" + d.split("/")[-2] + "-" + d.split("/")[-1])):
             out.append((name, p, "mutant"))
+    for d in sorted(glob.glob("/tmp/mut6m/C*/[AB]")):
+        p = os.path.join(d, "patch.diff")
+        name = "tmp6/" + d.split("/")[-2] + "-" + d.split("/")[-1]
+        if os.path.exists(p) and not os.path.exists(os.path.join(VERIF, "seeded", "r6-" + d.split("/")[-2] + "-" + d.split("/")[-1])):
+            out.append((name, p, "mutant"))
     for d in sorted(glob.glob("/tmp/mut2/R*/N*")):
         p = os.path.join(d, "patch.diff")
         name = "tmpbenign/" + d.split("/")[-2] + "-" + d.split("/")[-1]
